@@ -111,11 +111,11 @@ func genAVCSets(t *rapid.T) *avcCtx {
 	return c
 }
 
-func (c *avcCtx) stsd(typ string) []byte {
+func (c *avcCtx) stsd(typ string, extra ...[]byte) []byte {
 	s := &c.sps[0].S
 	conf := AvcC(byte(s.Profile), byte(s.ProfileCompatibility), byte(s.Level), c.spsNal, c.ppsNal,
 		s.ChromaFormatIDC, byte(s.BitDepthLumaMinus8), byte(s.BitDepthChromaMinus8))
-	return VideoStsd(typ, conf)
+	return VideoStsd(typ, conf, extra...)
 }
 
 func genAVCPredWeights(t *rapid.T, n uint32, chroma bool, l string) []nalgen.PredWeight {
